@@ -77,4 +77,8 @@ theorem text_TokenCache_Delete_ok : Oidc.Shapes.Text_TokenCache_Delete := by unf
 theorem text_TokenCache_Cleanup_ok : Oidc.Shapes.Text_TokenCache_Cleanup := by unfold Oidc.Shapes.Text_TokenCache_Cleanup; rfl
 theorem text_extractClaims_ok : Oidc.Shapes.Text_extractClaims := by unfold Oidc.Shapes.Text_extractClaims; rfl
 
+/-! further obligations against the regenerated program text (`Oidc/Shapes.lean`): constructor wiring and URL builders -/
+theorem text_TraefikOidc_cacheVerifiedToken_ok : Oidc.Shapes.Text_TraefikOidc_cacheVerifiedToken := by unfold Oidc.Shapes.Text_TraefikOidc_cacheVerifiedToken; rfl
+theorem text_New_ok : Oidc.Shapes.Text_New := by unfold Oidc.Shapes.Text_New; rfl
+
 end Oidc.Props.C14
